@@ -106,6 +106,25 @@ type Config struct {
 	// Probe (never in the default sweep): sole worker calls Stop with more
 	// requests behind it than the queue holds.
 	SoleProbe bool `json:"sole_worker_probe,omitempty"`
+	// NoReply: number of messages WITHOUT a reply subject (a plain Publish to a
+	// service subject: misdirected pub/sub traffic, a monitoring probe)
+	// interleaved anywhere into the "received before Stop" stream.  They are
+	// not requests (nothing can be answered) and nothing is demanded for them;
+	// the requests around them are judged as always, Stop and Serve must return.
+	NoReply int `json:"replyless_messages,omitempty"`
+	// Blip: the SERVER's broker connection (default reconnect behaviour, short
+	// ReconnectWait) goes through a relay that is taken down AFTER Stop has
+	// returned, while the K <= q+w accepted requests are still parked on the
+	// gate; the gate is opened once the connection reports RECONNECTING, so
+	// every reply is published into the client's reconnect buffer.  "hold":
+	// the link comes back after Serve returned; "race": BlipUs microseconds
+	// after the gate was opened.  Replies are judged after the connection has
+	// recovered (status CONNECTED + one Flush round trip).
+	Blip   string `json:"server_link_blip,omitempty"`
+	BlipUs int    `json:"link_up_after_us,omitempty"`
+	// PostGateUs: handler time spent after the gate (gate mode), so that the
+	// drain of the backlog takes long enough for the link to recover in it.
+	PostGateUs int `json:"handler_after_gate_us,omitempty"`
 }
 
 // Snap is a snapshot of the boundary counters.
@@ -154,6 +173,16 @@ type Result struct {
 	// was called (< wanted: Serve was certainly not yet parked on its quit channel)
 	EarlySubs int `json:"subs_at_early_stop"`
 	WantSubs  int `json:"subs_wanted"`
+	// reply-less messages published (and double-flushed) before Stop
+	NoReplyPublished int `json:"replyless_published,omitempty"`
+	// link blip: applied (connection seen RECONNECTING before the gate was
+	// opened), status of the server's connection at the instant Serve
+	// returned, reconnects counted by the client, attempts the relay refused
+	BlipApplied    bool   `json:"link_blip_applied,omitempty"`
+	BlipSkipped    string `json:"link_blip_skipped,omitempty"`
+	BlipAtServeRet string `json:"conn_status_at_serve_return,omitempty"`
+	BlipReconnects int    `json:"conn_reconnects,omitempty"`
+	BlipTurnedAway int    `json:"relay_attempts_refused_while_down,omitempty"`
 }
 
 type shutdownKey struct{}
@@ -175,7 +204,8 @@ type recProc struct {
 	dur     string
 	seed    int64
 	gate    chan struct{}
-	onS     func() // processor-initiated Stop (kind 2 request), may be nil
+	onS     func()        // processor-initiated Stop (kind 2 request), may be nil
+	post    time.Duration // spent after the gate
 }
 
 func (p *recProc) AddMiddleware(frugal.ServiceMiddleware)    {}
@@ -221,6 +251,9 @@ func (p *recProc) Process(in, out *frugal.FProtocol) error {
 	case "gate":
 		if buf[8] != 2 { // the shutdown request itself never waits for the gate (the gate opens when Stop is called)
 			<-p.gate
+			if p.post > 0 {
+				time.Sleep(p.post)
+			}
 		}
 	}
 	if buf[8] == 3 { // a request the processor fails
@@ -427,6 +460,15 @@ func (s *scen) hung(what string) *Result {
 	return r
 }
 
+// unfinishedAt: received and not finished at the instant of the snapshot.
+// A message without reply subject is reported by the request-received event
+// but is no request; whether it also shows up as finished is the server's
+// business, so with n such messages published the difference may be 0..n.
+func unfinishedAt(sn Snap, noReply int64) bool {
+	d := sn.Received - sn.Finished
+	return d < 0 || d > noReply || sn.Exited != sn.Entered
+}
+
 func flush(nc *nats.Conn) error { return nc.FlushTimeout(60 * time.Second) }
 
 // tcpCut is a one-connection-at-a-time TCP relay in front of the broker; Cut
@@ -489,7 +531,7 @@ func (t *tcpCut) Cut() {
 func runScenario(ns *rig.NatsServer, c Config) (res *Result) {
 	s := &scen{c: c, start: time.Now()}
 	s.res = &Result{Idx: c.Idx, Config: c, Status: "ok"}
-	s.proc = &recProc{calls: map[uint64]int{}, dur: c.Dur, seed: c.Seed, gate: make(chan struct{})}
+	s.proc = &recProc{calls: map[uint64]int{}, dur: c.Dur, seed: c.Seed, gate: make(chan struct{}), post: time.Duration(c.PostGateUs) * time.Microsecond}
 	var gateOnce sync.Once
 	openGate := func() { gateOnce.Do(func() { close(s.proc.gate) }) }
 	defer openGate()
@@ -509,7 +551,22 @@ func runScenario(ns *rig.NatsServer, c Config) (res *Result) {
 	}
 	var srvConn *nats.Conn
 	var err error
+	var blip *blipRelay
 	switch {
+	case c.Blip != "":
+		// the server's connection runs through a relay that can go down and
+		// come back; reconnecting is allowed (the library default), with a short
+		// wait between attempts
+		blip, err = newBlipRelay(strings.TrimPrefix(ns.URL, "nats://"))
+		if err != nil {
+			return s.inconclusive("blip relay: %v", err)
+		}
+		defer blip.Close()
+		rw := 20 * time.Millisecond
+		if c.Blip == "race" { // the recovery is to fall into the drain of the backlog
+			rw = time.Millisecond
+		}
+		srvConn, err = nats.Connect(blip.URL(), nats.MaxReconnects(-1), nats.ReconnectWait(rw), nats.ReconnectJitter(0, 0), nats.Timeout(10*time.Second))
 	case c.ConnLoss != "":
 		url := ns.URL
 		if c.ConnLoss == "cut" {
@@ -689,6 +746,20 @@ func runScenario(ns *rig.NatsServer, c Config) (res *Result) {
 		}
 	}
 	s.res.BadPublished = len(badData) + len(procErr)
+	// messages without a reply subject, anywhere in the stream (first, last,
+	// in between): well-formed one-way frames published with a plain Publish
+	const noReplyBase = uint64(1) << 41
+	noReply := map[uint64]bool{}
+	if c.NoReply > 0 && c.Early == "" && c.StopFrom == "" {
+		for i := 0; i < c.NoReply; i++ {
+			item := noReplyBase + uint64(i)
+			noReply[item] = true
+			pos := rng.Intn(len(preSeq) + 1)
+			preSeq = append(preSeq[:pos:pos], append([]uint64{item}, preSeq[pos:]...)...)
+		}
+	}
+	nNoReply := int64(len(noReply))
+	s.res.NoReplyPublished = len(noReply)
 	rest := c.B - c.K
 	nDuring, nAfter := 0, 0
 	switch c.Rest {
@@ -706,7 +777,7 @@ func runScenario(ns *rig.NatsServer, c Config) (res *Result) {
 	for i := 0; i < nAfter+1; i++ { // +1: every scenario probes "after Stop returned"
 		after = append(after, newID(classAfter))
 	}
-	s.res.Requests, s.res.Pre, s.res.During, s.res.After = len(class), len(preSeq)-len(badData), len(during), len(after)
+	s.res.Requests, s.res.Pre, s.res.During, s.res.After = len(class), len(preSeq)-len(badData)-len(noReply), len(during), len(after)
 	duringFlushEvery := 1 + rng.Intn(4)
 	var pubErrMu sync.Mutex
 	var pubErr error
@@ -723,6 +794,18 @@ func runScenario(ns *rig.NatsServer, c Config) (res *Result) {
 		}
 		payload := make([]byte, 9)
 		binary.BigEndian.PutUint64(payload, id)
+		if noReply[id] {
+			// no reply subject: a plain Publish on a service subject
+			payload[8] = 1
+			frame := wire.BuildFrame([]wire.Pair{{Name: "_opid", Value: strconv.FormatUint(id, 10)}, {Name: "_cid", Value: "c20-noreply-" + strconv.FormatUint(id-noReplyBase, 10)}}, payload)
+			if err := pubConn.Publish(subjects[int(id)%busy], frame); err != nil {
+				pubErrMu.Lock()
+				pubErr = err
+				pubErrMu.Unlock()
+			}
+			s.published.Add(1)
+			return
+		}
 		if oneway[id] {
 			payload[8] = 1
 		}
@@ -773,8 +856,36 @@ func runScenario(ns *rig.NatsServer, c Config) (res *Result) {
 		}
 		close(duringDone)
 	}()
+	// link blip: the main flow opens the gate itself once the server's
+	// connection is RECONNECTING.  That happens after Stop returned; so that
+	// the handler duration never DEPENDS on Stop's return, a fallback opens
+	// the gate blipFallback after Stop was called unless the main flow has
+	// taken the gate over by then (then the blip is not applied at all: a
+	// link cut under replies that are on their way to the socket decides
+	// nothing).
+	const blipFallback = 10 * time.Second
+	var blipMu sync.Mutex
+	blipOwned, gateFellBack := false, false
+	scenarioOver := make(chan struct{})
+	defer close(scenarioOver)
 	go func() { // finite handler duration in gate mode: released after Stop was CALLED, never depends on its return
 		<-stopCalled
+		if c.Blip != "" {
+			t := time.NewTimer(blipFallback)
+			defer t.Stop()
+			select {
+			case <-t.C:
+			case <-scenarioOver:
+				return
+			}
+			blipMu.Lock()
+			if !blipOwned {
+				gateFellBack = true
+				openGate()
+			}
+			blipMu.Unlock()
+			return
+		}
 		if c.GateUs > 0 {
 			time.Sleep(time.Duration(c.GateUs) * time.Microsecond)
 		}
@@ -805,7 +916,7 @@ func runScenario(ns *rig.NatsServer, c Config) (res *Result) {
 		workerStopOnce.Do(func() {
 			<-armed
 			s.res.AtStop = s.snap()
-			s.res.QueueFull = s.res.AtStop.Received-s.res.AtStop.Started >= int64(c.Q)
+			s.res.QueueFull = nNoReply == 0 && s.res.AtStop.Received-s.res.AtStop.Started >= int64(c.Q)
 			s.mark("Stop called on a worker goroutine (" + c.StopFrom + ")")
 			stopAt = time.Now()
 			close(stopCalled)
@@ -823,6 +934,9 @@ func runScenario(ns *rig.NatsServer, c Config) (res *Result) {
 		s.serveEntered.Store(true)
 		serveErr = server.Serve()
 		serveSnap = s.snap() // the instant Serve returns
+		if c.Blip != "" {
+			s.res.BlipAtServeRet = srvConn.Status().String()
+		}
 		s.proc.mu.Lock()
 		for k, v := range s.proc.calls {
 			serveCalls[k] = v
@@ -920,7 +1034,9 @@ func runScenario(ns *rig.NatsServer, c Config) (res *Result) {
 			// everything, if k is smaller than that)
 			kk := c.K + len(procErr) // requests that park on the gate
 			wantStarted := int64(imin(kk, c.W))
-			wantReceived := int64(imin(kk+len(badData), c.W+c.Q+1))
+			// (reply-less messages are received and dropped by the callback: they
+			// never take a queue slot, so the bound below stays reachable)
+			wantReceived := int64(imin(kk+len(badData)+len(noReply), c.W+c.Q+1))
 			if c.PureRecv {
 				wantReceived = 0
 			}
@@ -948,7 +1064,7 @@ func runScenario(ns *rig.NatsServer, c Config) (res *Result) {
 			close(armed) // S (being handled, or still queued) may call Stop now
 		} else {
 			s.res.AtStop = s.snap()
-			s.res.QueueFull = s.res.AtStop.Received-s.res.AtStop.Started >= int64(c.Q)
+			s.res.QueueFull = nNoReply == 0 && s.res.AtStop.Received-s.res.AtStop.Started >= int64(c.Q)
 			s.mark("Stop called")
 			stopAt = time.Now()
 			close(stopCalled)
@@ -993,7 +1109,7 @@ func runScenario(ns *rig.NatsServer, c Config) (res *Result) {
 		counters := map[string]interface{}{"at_stop": s.res.AtStop, "at_stop_returned": s.res.AtStopRet, "at_serve_returned": s.res.AtServeRet, "stop_error": fmt.Sprint(stopErr)}
 		var missing, dup, lateIDs []uint64
 		for _, id := range preSeq {
-			if _, bad := badData[id]; bad {
+			if _, bad := badData[id]; bad || noReply[id] {
 				continue
 			}
 			switch n := serveCalls[id]; {
@@ -1020,8 +1136,8 @@ func runScenario(ns *rig.NatsServer, c Config) (res *Result) {
 			s.violation("C20:pre-stop-request-duplicated", fmt.Sprintf("%d requests received before Stop were processed more than once", len(dup)),
 				map[string]interface{}{"ids": cut(dup), "counters": counters, "timeline": tl})
 		}
-		if serveSnap.Finished != serveSnap.Received || serveSnap.Exited != serveSnap.Entered {
-			s.violation("C20:finished-ne-received-at-serve-return", fmt.Sprintf("at the instant Serve returned: received=%d started=%d finished=%d, processor entered=%d exited=%d", serveSnap.Received, serveSnap.Started, serveSnap.Finished, serveSnap.Entered, serveSnap.Exited),
+		if unfinishedAt(serveSnap, nNoReply) {
+			s.violation("C20:finished-ne-received-at-serve-return", fmt.Sprintf("at the instant Serve returned: received=%d (incl. at most %d reply-less messages) started=%d finished=%d, processor entered=%d exited=%d", serveSnap.Received, nNoReply, serveSnap.Started, serveSnap.Finished, serveSnap.Entered, serveSnap.Exited),
 				map[string]interface{}{"counters": counters, "timeline": tl})
 		}
 		s.finish()
@@ -1042,6 +1158,55 @@ func runScenario(ns *rig.NatsServer, c Config) (res *Result) {
 	s.afterFlushed = true
 	s.mark("after-Stop requests flushed")
 
+	// ---- link blip while the accepted requests are being worked off -------
+	if blip != nil {
+		blipMu.Lock()
+		own := !gateFellBack
+		blipOwned = own
+		blipMu.Unlock()
+		switch {
+		case !own:
+			s.res.BlipSkipped = "Stop took longer than " + blipFallback.String() + ": the gate was opened by the fallback"
+		default:
+			// the subscriptions Stop drained have left the client's table (nats.go
+			// removes a drained subscription on a goroutine of its own, and would
+			// re-SUBSCRIBE one that is still listed when the link comes back)
+			left := 0
+			if c.Share {
+				left = 1
+			}
+			if !s.awaitCond(func() bool { return srvConn.NumSubscriptions() <= left }, nil) {
+				s.res.BlipSkipped = fmt.Sprintf("%d subscriptions still listed by the server's NATS client after Stop returned", srvConn.NumSubscriptions())
+				break
+			}
+			// nothing of the server is on its way to the socket: Stop's round
+			// trips are over, every accepted request is parked on the gate
+			blip.Down()
+			s.mark("server link down")
+			if !s.awaitCond(func() bool { return srvConn.Status() == nats.RECONNECTING }, nil) {
+				st := srvConn.Status()
+				blip.Up()
+				openGate()
+				r := s.inconclusive("server connection did not report RECONNECTING after its link went down (status %v)", st)
+				r.Restart = true
+				return r
+			}
+			s.res.BlipApplied = true
+			s.mark("server connection RECONNECTING, gate opened")
+		}
+		if s.res.BlipSkipped != "" {
+			s.mark("link blip not applied: " + s.res.BlipSkipped)
+		}
+		openGate()
+		if s.res.BlipApplied && c.Blip == "race" {
+			if c.BlipUs > 0 {
+				time.Sleep(time.Duration(c.BlipUs) * time.Microsecond)
+			}
+			blip.Up()
+			s.mark("server link up")
+		}
+	}
+
 	if !s.await(serveDone) {
 		return s.hung("Serve did not return")
 	}
@@ -1051,6 +1216,24 @@ func runScenario(ns *rig.NatsServer, c Config) (res *Result) {
 		r := s.inconclusive("publisher goroutine stuck")
 		r.Restart = true
 		return r
+	}
+	if s.res.BlipApplied {
+		// the link comes back (if it has not yet); replies are judged once the
+		// connection has recovered: status CONNECTED is set after the client
+		// has written its reconnect buffer to the new socket, the Flush round
+		// trip below then orders everything before the collector's Flush
+		blip.Up()
+		if c.Blip != "race" {
+			s.mark("server link up")
+		}
+		if !s.awaitCond(func() bool { return srvConn.Status() == nats.CONNECTED }, nil) {
+			r := s.inconclusive("server connection did not recover after its link came back (status %v, %d attempts refused by the relay)", srvConn.Status(), blip.turnedAway.Load())
+			r.Restart = true
+			return r
+		}
+		s.res.BlipReconnects = int(srvConn.Stats().Reconnects)
+		s.res.BlipTurnedAway = int(blip.turnedAway.Load())
+		s.mark("server connection CONNECTED again")
 	}
 
 	// ---- collect replies: one Flush round trip on each connection -------
@@ -1199,7 +1382,10 @@ func runScenario(ns *rig.NatsServer, c Config) (res *Result) {
 		return s.inconclusive("recording processor could not decode a request: %v", perrs)
 	}
 	counters := map[string]interface{}{"at_stop": s.res.AtStop, "at_stop_returned": s.res.AtStopRet, "at_serve_returned": s.res.AtServeRet}
-	var lost, dup, noReply, dupReply, late, twice []uint64
+	if s.res.BlipApplied {
+		counters["link_blip"] = map[string]interface{}{"conn_status_at_serve_return": s.res.BlipAtServeRet, "conn_reconnects": s.res.BlipReconnects, "relay_attempts_refused_while_down": s.res.BlipTurnedAway}
+	}
+	var lost, dup, unanswered, dupReply, late, twice []uint64
 	for id := uint64(1); id <= nextID; id++ {
 		n, r := calls[id], replies[id]
 		switch class[id] {
@@ -1211,7 +1397,7 @@ func runScenario(ns *rig.NatsServer, c Config) (res *Result) {
 			}
 			if !oneway[id] && !procErr[id] && n == 1 {
 				if r == 0 {
-					noReply = append(noReply, id)
+					unanswered = append(unanswered, id)
 				} else if r > 1 {
 					dupReply = append(dupReply, id)
 				}
@@ -1258,9 +1444,12 @@ func runScenario(ns *rig.NatsServer, c Config) (res *Result) {
 		s.violation("C20:pre-stop-request-duplicated", fmt.Sprintf("%d requests received before Stop were processed more than once", len(dup)),
 			map[string]interface{}{"ids": ids(dup), "counters": counters, "timeline": tl()})
 	}
-	if len(noReply) > 0 {
-		s.violation("C20:reply-missing-at-serve-return", fmt.Sprintf("%d two-way requests received before Stop were processed but their reply had not been published when Serve returned (not in the collector after a Flush round trip on the server's and the collector's connection)", len(noReply)),
-			map[string]interface{}{"ids": ids(noReply), "missing": len(noReply), "counters": counters, "timeline": tl()})
+	if len(unanswered) > 0 && s.res.BlipApplied {
+		s.violation("C20:link-blip:reply-missing-after-connection-recovered", fmt.Sprintf("%d two-way requests received before Stop were processed while the server's connection was RECONNECTING (link down after Stop had returned, status at Serve's return: %s), Serve returned, the connection recovered (%d reconnect) - and their replies are not in the collector after a Flush round trip on the recovered connection and on the collector's (nats.go keeps a Publish made while RECONNECTING in its reconnect buffer and writes it out on recovery, so a reply handed to the client would be there)", len(unanswered), s.res.BlipAtServeRet, s.res.BlipReconnects),
+			map[string]interface{}{"ids": ids(unanswered), "missing": len(unanswered), "counters": counters, "timeline": tl()})
+	} else if len(unanswered) > 0 {
+		s.violation("C20:reply-missing-at-serve-return", fmt.Sprintf("%d two-way requests received before Stop were processed but their reply had not been published when Serve returned (not in the collector after a Flush round trip on the server's and the collector's connection)", len(unanswered)),
+			map[string]interface{}{"ids": ids(unanswered), "missing": len(unanswered), "counters": counters, "timeline": tl()})
 	}
 	if len(dupReply) > 0 {
 		s.violation("C20:reply-duplicated", fmt.Sprintf("%d requests received before Stop got more than one reply", len(dupReply)),
@@ -1274,8 +1463,8 @@ func runScenario(ns *rig.NatsServer, c Config) (res *Result) {
 		s.violation("C20:processed-after-stop-returned", fmt.Sprintf("%d requests published after Stop had returned were processed", len(late)),
 			map[string]interface{}{"ids": ids(late), "counters": counters, "timeline": tl()})
 	}
-	if serveSnap.Finished != serveSnap.Received || serveSnap.Exited != serveSnap.Entered {
-		s.violation("C20:finished-ne-received-at-serve-return", fmt.Sprintf("at the instant Serve returned: received=%d started=%d finished=%d, processor entered=%d exited=%d", serveSnap.Received, serveSnap.Started, serveSnap.Finished, serveSnap.Entered, serveSnap.Exited),
+	if unfinishedAt(serveSnap, nNoReply) {
+		s.violation("C20:finished-ne-received-at-serve-return", fmt.Sprintf("at the instant Serve returned: received=%d (incl. at most %d reply-less messages) started=%d finished=%d, processor entered=%d exited=%d", serveSnap.Received, nNoReply, serveSnap.Started, serveSnap.Finished, serveSnap.Entered, serveSnap.Exited),
 			map[string]interface{}{"counters": counters, "timeline": tl()})
 	}
 	if badReply != "" {
